@@ -509,7 +509,7 @@ def compare_exec(impl_lines, model_lines):
             if not vb.startswith("own") and ((not reuse_ok and fwd.setdefault(va, vb) != vb) or bwd.setdefault(vb, va) != va):
                 return i, a, b + f"   (variable mapping inconsistent: {va} was {fwd.get(va)}, {vb} was {bwd.get(vb)})"
             ra, rb = ta[:2] + ta[3:], tb[:2] + tb[3:]
-            if vb.startswith("dist"):
+            if "dist" in vb.split("[")[0]:
                 ra, rb = [x for x in ra if not x.startswith("v=")], [x for x in rb if not x.startswith("v=")]
             if ra != rb:
                 return i, a, b
